@@ -6,8 +6,7 @@
   until all are blocked. This driver is the matching SCHEDULER: it turns each stimulus
   into the labels of the steps the goroutines take until quiescence and feeds them to
   the proved step function `Mux.step Mux.fixed` through `MuxMgr.stepMux / capture / register`
-  (one mux, mainLoop's capture of the close channels explicit, `wake := true` = the tree with
-  fixes/D16.patch) — every state change goes through them; the scheduler only decides which
+  (one mux, mainLoop's capture of the close channels explicit, `wake := false` = the code as it is) — every state change goes through them; the scheduler only decides which
   labels to emit (it tracks which Accept calls are outstanding and which clients have sent).
   Core Lean only.
 -/
@@ -31,7 +30,7 @@ def DS.st (d : DS) : St := d.w.st
 
 def DS.apply (d : DS) (l : Label) : DS :=
   match l with
-  | .listen k => { d with w := register true d.w k }
+  | .listen k => { d with w := register false d.w k }
   | l => { d with w := stepMux d.w l }
 
 def DS.capture (d : DS) : DS := { d with w := MuxMgr.capture d.w }
